@@ -1,7 +1,7 @@
-SPECIFICATION Spec
+SPECIFICATION Directed2Spec
 CONSTANTS
-  MaxLen = 8
-  Directed = 0
+  MaxLen = 4
+  Directed = 2
   Emit = TRUE
 INVARIANT Inv
 INVARIANT EmitReplay
